@@ -3,9 +3,13 @@
 package referenceserver
 
 import (
+	"bytes"
 	"context"
+	"encoding/binary"
 	"fmt"
+	"io"
 	"net/http"
+	"strings"
 	"testing"
 
 	"connectrpc.com/conformance/internal/compression"
@@ -172,6 +176,76 @@ func TestVerifC19ServerSharp(t *testing.T) {
 				}
 			}
 		}
+		// the limit is per message, not per body: a buffered upload (declared Content-Length) of several
+		// messages that are each within the limit must be accepted
+		if L <= 4096 || verifkit.Thorough() {
+			for _, ct := range []string{"application/connect+proto", "application/grpc-web+proto", "application/grpc+proto"} {
+				for _, sizes := range [][]int{{10, L}, {L, 10}, {L - 1, L - 1, L - 1}, {L, L, L, L}} {
+					var body bytes.Buffer
+					okSizes := true
+					for _, sz := range sizes {
+						d := vfPayloadFor(sz, true, func(b []byte) proto.Message { return &conformancev1.ClientStreamRequest{RequestData: b} })
+						if d == nil {
+							okSizes = false
+							break
+						}
+						raw, _ := proto.Marshal(&conformancev1.ClientStreamRequest{RequestData: d})
+						body.Write(vfEnvC19(0, raw))
+					}
+					if !okSizes {
+						continue
+					}
+					name := fmt.Sprintf("Sharp/%d/buffered/%s/%v", L, ct, sizes)
+					hreq, _ := http.NewRequest("POST", base+"/connectrpc.conformance.v1.ConformanceService/ClientStream", bytes.NewReader(body.Bytes()))
+					hreq.Header.Set("Content-Type", ct)
+					hreq.Header.Set("X-Test-Case-Name", name)
+					hreq.Header.Set("Te", "trailers")
+					rep.Eval(1)
+					rep.DistinctKey(L, ct, fmt.Sprint(sizes), "buffered")
+					w := map[string]any{"limit": L, "content_type": ct, "message_sizes": sizes, "content_length": body.Len()}
+					resp, err := httpc.Do(hreq)
+					if err != nil {
+						rep.Inconcl(fmt.Sprintf("%s: %v", name, err))
+						continue
+					}
+					rb, _ := io.ReadAll(resp.Body)
+					resp.Body.Close()
+					verdict := "?"
+					switch {
+					case strings.HasPrefix(ct, "application/connect+"):
+						verdict = "accepted"
+						// the last envelope is the end-of-stream message
+						off, last := 0, -1
+						for off+5 <= len(rb) {
+							l := int(binary.BigEndian.Uint32(rb[off+1 : off+5]))
+							last = off
+							off += 5 + l
+						}
+						if last < 0 || rb[last]&2 == 0 {
+							verdict = fmt.Sprintf("no end-of-stream message (HTTP %d)", resp.StatusCode)
+						} else if strings.Contains(string(rb[last+5:]), `"error"`) {
+							verdict = "error: " + verifkit.Trunc(string(rb[last+5:]), 120)
+						}
+					case strings.HasPrefix(ct, "application/grpc-web"):
+						verdict = "accepted"
+						if !strings.Contains(string(rb), "grpc-status: 0") && !strings.Contains(string(rb), "grpc-status:0") {
+							verdict = "error: " + verifkit.Trunc(string(rb[len(rb)-min(len(rb), 120):]), 120) + " / header grpc-status=" + resp.Header.Get("Grpc-Status")
+						}
+					default:
+						verdict = "accepted"
+						if st := resp.Trailer.Get("Grpc-Status") + resp.Header.Get("Grpc-Status"); st != "0" {
+							verdict = "error: grpc-status " + st + " " + resp.Trailer.Get("Grpc-Message") + resp.Header.Get("Grpc-Message")
+						}
+					}
+					w["verdict"] = verdict
+					if verdict != "accepted" {
+						rep.Violation("sharp/server/buffered-multi-message-body-rejected", fmt.Sprintf("a %d-byte body of %d messages, each within the limit of %d, was not accepted: %s", body.Len(), len(sizes), L, verdict), w)
+					} else {
+						rep.Count("buffered_multi_message_bodies_accepted", 1)
+					}
+				}
+			}
+		}
 		for _, l := range srv.stderr.Lines() {
 			rep.Count("server_stderr_lines", 1)
 			_ = l
@@ -180,6 +254,15 @@ func TestVerifC19ServerSharp(t *testing.T) {
 	}
 	_ = http.MethodPost
 	rep.Sample(map[string]any{"limit": 4096, "protocol": "grpc", "compression": "zstd", "size": 4097, "expect": "resource_exhausted although the zero padding compresses to a few bytes"})
+	rep.RequireMin("buffered_multi_message_bodies_accepted", 12)
 	rep.RequireMin("over_limit_cases", 100)
 	rep.RequireMin("within_limit_accepted", 150)
+}
+
+func vfEnvC19(flags byte, p []byte) []byte {
+	b := make([]byte, 5+len(p))
+	b[0] = flags
+	binary.BigEndian.PutUint32(b[1:], uint32(len(p)))
+	copy(b[5:], p)
+	return b
 }
